@@ -20,14 +20,20 @@ import (
 // SpokBin is the path of the binary; empty = L3 not available in this run.
 var SpokBin = os.Getenv("SIM_SPOK_BIN")
 
+// prlimitPath: util-linux prlimit(1), used to start a child under RLIMIT_FSIZE; without it that fault is skipped.
+var prlimitPath, _ = exec.LookPath("prlimit")
+
 // InvokeProc runs one invocation at level L3.
 func (w *World) InvokeProc(in Invocation) *Obs {
 	obs := &Obs{Counts: map[string]int{}}
 	cmd := exec.Command(SpokBin, in.Args...)
-	if in.Faults.FsizeLimit > 0 {
+	if in.Faults.FsizeLimit > 0 && prlimitPath == "" {
+		obs.Counts["fault_unavailable:file_size_limit_needs_prlimit"]++
+	}
+	if in.Faults.FsizeLimit > 0 && prlimitPath != "" {
 		// prlimit sets the limit and execs the binary: the limit is in force from the first instruction on.
 		// The Go runtime ignores SIGXFSZ, so the write simply fails with EFBIG after a short write.
-		cmd = exec.Command("/usr/bin/prlimit", append([]string{fmt.Sprintf("--fsize=%d", in.Faults.FsizeLimit), SpokBin}, in.Args...)...)
+		cmd = exec.Command(prlimitPath, append([]string{fmt.Sprintf("--fsize=%d", in.Faults.FsizeLimit), SpokBin}, in.Args...)...)
 	}
 	cmd.Dir = in.Cwd
 	env := []string{"PATH=/usr/bin:/bin", fmt.Sprintf("SPOKSIM_DAGSEED=%d", dagSeed(in.Sched, in.Inv))}
